@@ -867,7 +867,7 @@ class Environments(collections.abc.Sequence, Sequence[Environment]):
         if isinstance(stats,str): stats = [stats]
         envs = self
         for stat in stats:
-            envs = self.filter(Impute(stat, indicator, using))
+            envs = envs.filter(Impute(stat, indicator, using))
         return envs
 
     def where(self,*,
